@@ -2190,7 +2190,7 @@ class EdgeQLSourceGenerator(codegen.SourceGenerator):
                     op_str += f'({",".join(types)})'
                 self.write(f'{op_str!r}', ';')
             if node.code.from_function:
-                from_clause = f'USING {node.code.language} OPERATOR '
+                from_clause = f'USING {node.code.language} FUNCTION '
                 self._write_keywords(from_clause)
                 op, *types = node.code.from_function
                 op_str = op
